@@ -778,10 +778,173 @@ pub fn run(tier: Tier) -> i32 {
             }
         }
     }
+    // scale class: crowds (client tables, broadcast loops and id handling beyond one byte)
+    if rep.machinery.is_none() {
+        let sizes: Vec<usize> = tier.pick(vec![2, 255, 256, 257, 300], vec![2, 3, 64, 255, 256, 257, 300, 1000, 2000]);
+        let res = explore::par_cases(sizes.len(), |i| crowd_case(sizes[i]));
+        let mut steps = 0u64;
+        for (i, r) in res.into_iter().enumerate() {
+            match r {
+                Ok(n) => steps += n,
+                Err(v) => rep.violation("crowd", v, J::obj().set("kind", J::s("crowd")).set("clients", J::i(sizes[i] as u64))),
+            }
+        }
+        rep.add_sweep("crowd", sizes.len() as u64, sizes.len() as u64, sizes.len() as u64, vec![format!("{:?} clients on one server: broadcast, broadcast_except, unicast, sliced broadcast, every client sends; one client kicked, one link dead, then a second broadcast ({} library calls)", sizes, steps)]);
+        rep.transitions += steps;
+    }
     rep.finish()
 }
 
+/// n clients on one server; who obtains what, at scale.
+pub fn crowd_case(n: usize) -> Result<u64, Violation> {
+    let bad = |sig: &str, msg: String| Violation::new(format!("C11/crowd/{}", sig), format!("{} clients: {}", n, msg));
+    let id = |i: usize| 1000u64 + 3 * i as u64;
+    let mut srv = RenetServer::new(config());
+    let mut cl: Vec<RenetClient> = (0..n).map(|_| RenetClient::new(config())).collect();
+    let dt = Duration::from_millis(DT);
+    let mut steps = 0u64;
+    // what client i obtained: (channel, body) list; what the server obtained per id
+    let mut got_c: Vec<Vec<(u8, Vec<u8>)>> = vec![vec![]; n];
+    let mut got_s: BTreeMap<u64, Vec<(u8, Vec<u8>)>> = BTreeMap::new();
+    let excluded = n / 2;
+    let target = n - 1;
+    let kicked = n / 3;
+    let dead = if n > 3 { Some(1usize) } else { None };
+    let tag = |k: u8, len: usize| -> Vec<u8> {
+        let mut v = vec![0xB0, k];
+        while v.len() < len {
+            v.push((v.len() as u8).wrapping_mul(5).wrapping_add(k));
+        }
+        v
+    };
+    let from = |i: usize| -> Vec<u8> {
+        let mut v = vec![0xC1];
+        v.extend_from_slice(&(i as u32).to_le_bytes());
+        v
+    };
+    guard("crowd setup", || {
+        for i in 0..n {
+            srv.add_connection(id(i));
+            cl[i].set_connected();
+        }
+        while srv.get_event().is_some() {}
+    })?;
+    let mut tick = |srv: &mut RenetServer, cl: &mut Vec<RenetClient>, got_c: &mut Vec<Vec<(u8, Vec<u8>)>>, got_s: &mut BTreeMap<u64, Vec<(u8, Vec<u8>)>>, dead_now: Option<usize>, steps: &mut u64| -> Result<(), Violation> {
+        guard("crowd tick", || {
+            srv.update(dt);
+            for i in 0..n {
+                cl[i].update(dt);
+                let Ok(pk) = srv.get_packets_to_send(id(i)) else { continue };
+                *steps += 1;
+                if Some(i) == dead_now {
+                    continue;
+                }
+                for p in pk {
+                    cl[i].process_packet(&p);
+                    *steps += 1;
+                }
+            }
+            for i in 0..n {
+                let pk = cl[i].get_packets_to_send();
+                *steps += 1;
+                if Some(i) == dead_now {
+                    continue;
+                }
+                for p in pk {
+                    let _ = srv.process_packet_from(&p, id(i));
+                    *steps += 1;
+                }
+            }
+            for i in 0..n {
+                for ch in 0..3u8 {
+                    while let Some(m) = cl[i].receive_message(ch) {
+                        got_c[i].push((ch, m.to_vec()));
+                    }
+                    while let Some(m) = srv.receive_message(id(i), ch) {
+                        got_s.entry(id(i)).or_default().push((ch, m.to_vec()));
+                    }
+                }
+            }
+        })
+    };
+    // round 1
+    guard("crowd sends", || {
+        srv.broadcast_message(1u8, tag(1, 40));
+        srv.broadcast_message_except(id(excluded), 2u8, tag(2, 60));
+        srv.send_message(id(target), 1u8, tag(3, 20));
+        srv.broadcast_message(2u8, tag(4, 3000));
+        for i in 0..n {
+            cl[i].send_message(2u8, from(i));
+        }
+    })?;
+    for _ in 0..6 {
+        tick(&mut srv, &mut cl, &mut got_c, &mut got_s, None, &mut steps)?;
+    }
+    for i in 0..n {
+        let mut want: Vec<(u8, Vec<u8>)> = vec![(1, tag(1, 40)), (2, tag(4, 3000))];
+        if i != excluded {
+            want.push((2, tag(2, 60)));
+        }
+        if i == target {
+            want.push((1, tag(3, 20)));
+        }
+        let mut g = got_c[i].clone();
+        g.sort();
+        want.sort();
+        if g != want {
+            let describe = |v: &Vec<(u8, Vec<u8>)>| v.iter().map(|(c, b)| format!("ch{}:#{}({}B)", c, b.get(1).copied().unwrap_or(0), b.len())).collect::<Vec<_>>().join(" ");
+            return Err(bad("recipients", format!("client {} (id {}) obtained [{}], expected [{}] (broadcast #1, broadcast_except({}) #2, unicast to {} #3, sliced broadcast #4)", i, id(i), describe(&g), describe(&want), id(excluded), id(target))));
+        }
+        let s = got_s.get(&id(i)).cloned().unwrap_or_default();
+        if s != vec![(2u8, from(i))] {
+            return Err(bad("attribution", format!("under id {} the server obtained {} message(s), expected exactly the one client {} sent", id(i), s.len(), i)));
+        }
+    }
+    // round 2: one client kicked, one link dead; the rest must not notice
+    for g in got_c.iter_mut() {
+        g.clear();
+    }
+    guard("crowd round 2", || {
+        srv.disconnect(id(kicked));
+        srv.broadcast_message(1u8, tag(5, 40));
+        srv.broadcast_message(2u8, tag(6, 2500));
+    })?;
+    for _ in 0..6 {
+        tick(&mut srv, &mut cl, &mut got_c, &mut got_s, dead, &mut steps)?;
+    }
+    for i in 0..n {
+        let mut g = got_c[i].clone();
+        g.sort();
+        let mut want: Vec<(u8, Vec<u8>)> = if i == kicked || Some(i) == dead { vec![] } else { vec![(1, tag(5, 40)), (2, tag(6, 2500))] };
+        want.sort();
+        if i == kicked {
+            if !g.is_empty() {
+                return Err(bad("disconnected-client-got-broadcast", format!("client {} was disconnected before the broadcast and obtained {} message(s)", i, g.len())));
+            }
+            continue;
+        }
+        if g != want {
+            return Err(bad("recipients-round-2", format!("client {} obtained {} message(s) of the second round, expected {} (client {} kicked, link of client {:?} dead)", i, g.len(), want.len(), kicked, dead)));
+        }
+    }
+    Ok(steps)
+}
+
 pub fn replay(j: &J) -> i32 {
+    if j.get("kind").and_then(|k| k.as_str()) == Some("crowd") {
+        let n = j.get("clients").and_then(|x| x.as_i()).unwrap_or(256) as usize;
+        println!("crowd case: {} clients", n);
+        return match crowd_case(n) {
+            Err(v) => {
+                println!("RESULT: violation {} — {}", v.signature, v.message);
+                1
+            }
+            Ok(_) => {
+                println!("RESULT: no violation");
+                0
+            }
+        };
+    }
     if j.get("kind").and_then(|k| k.as_str()) == Some("schedule") {
         let tier = match j.get("tier").and_then(|t| t.as_str()) {
             Some("thorough") => Tier::Thorough,
